@@ -290,8 +290,16 @@ def run_tu(binp, tu, seed, scale):
 
 
 def run_driver(text, extra_args=()):
-    r = subprocess.run([DRIVER] + list(extra_args), input=text.encode(), stdout=subprocess.PIPE, stderr=subprocess.PIPE,
-                       timeout=3000)
+    # another check's `lake build` may be relinking the shared driver binary at this moment: wait for it to reappear
+    for attempt in range(120):
+        try:
+            r = subprocess.run([DRIVER] + list(extra_args), input=text.encode(), stdout=subprocess.PIPE, stderr=subprocess.PIPE,
+                               timeout=3000)
+            break
+        except (FileNotFoundError, PermissionError, OSError) as e:
+            if attempt == 119:
+                raise MachineryError(f"driver binary unavailable: {e}")
+            time.sleep(1)
     if r.returncode != 0:
         raise MachineryError("driver failed: " + r.stderr.decode()[-2000:])
     return r.stdout.decode("utf-8", "replace")
